@@ -63,6 +63,7 @@ void sim_tso_enable_plain(void); /* ... and for plain aligned stores into heap o
 void sim_stall_after_rmw(int nth, int steps); /* the calling kernel thread sleeps for `steps` scheduling points' worth of time right after its nth atomic RMW from now */
 void sim_hold_before_dwcas(volatile int* reached, volatile int* release, int max_steps); /* the calling kernel thread is preempted right before its next double-word CAS until *release != 0 (or max_steps) */
 void sim_stall_after_timer_read(int steps); /* ... right after its next successful read of the timer descriptor */
+void simk_thread_locked(int on); /* the calling kernel thread is (no longer) locked with fiber_io_lock_thread() */
 void sim_tso_sync(void);         /* drain the calling thread's store buffer: call where the harness regards an operation as complete */
 
 /* ---- verdicts ---- */
@@ -116,6 +117,7 @@ extern void (*sim_hook_hp_scan_exit)(void* hptr);
 int simk_listen(int fd, int port);
 int simk_pipe_capacity(void);
 void simk_set_capacity(int cap);
+void simk_set_soft_fd_limit(int n); /* what getrlimit reports as rlim_cur (hard limit stays 64) */
 /* per-call tracking for the C08 oracle: underlying calls made by the current fiber */
 void simk_call_begin(void);
 typedef struct simk_call {
